@@ -62,6 +62,8 @@ type Engine struct {
 	verbose         bool
 	modelsPkg       *ssa.Package
 	owners          map[*Cell]cellOwner
+	tokMu           sync.Mutex
+	typeTokens      map[string]*typeToken
 	ownersN         int
 }
 
@@ -312,6 +314,9 @@ func (it *Interp) invoke(recv Value, m *types.Func, args []Value, deferOf *Frame
 			it.unsupported("invoke on poisoned value: " + p.why)
 		}
 		it.goPanicRuntime("invalid memory address or nil pointer dereference")
+	}
+	if tok, ok := ifc.v.Ref.(*typeToken); ok {
+		return it.reflectTypeMethod(tok, m.Name(), args)
 	}
 	fn := it.lookupMethod(ifc.t, m)
 	if fn == nil {
